@@ -127,6 +127,8 @@ Qed.
 (* a push that does nothing (ill-typed argument) followed by ... is not needed: the scopes always push a dict *)
 Lemma py_update_dict : forall a y, exists d, py_update (VD a) y = VD d.
 Proof. intros. destruct y; simpl; eauto. Qed.
+Lemma py_merge2_dict : forall a y, exists d, py_merge2 (VD a) y = VD d.
+Proof. intros. destruct y; simpl; eauto. Qed.
 Lemma tl_peek_dict : forall k s d0, exists d, tl_peek k (VD d0) s = VD d.
 Proof. intros. unfold tl_peek. destruct (st_get k s) as [[a|d|[|x l]]|]; eauto. Qed.
 
